@@ -235,6 +235,8 @@ func c16(c *Ctx) {
 	c16Run(c, "C16", c16Decoders, true)
 	c09EntryCountBounded(c, "C16.9/entry-count-bounded")
 	c16PeerMessages(c, "C16.12/peer-messages-nil-checked")
+	c16ReadLoopsEnd(c, "C16.13/read-loops-end-with-the-input")
+	c16NoNilNil(c, "C16.14/no-nil-result-without-error", []string{"embedded/appendable/singleapp", "embedded/appendable/multiapp", "embedded/appendable/remoteapp", "embedded/appendable/fileutils", "embedded/appendable", "embedded/store", "embedded/tbtree", "embedded/ahtree", "embedded/htree", "embedded/cache", "embedded/multierr", "embedded/watchers"})
 }
 
 // c16PeerMessages: proof messages are decoded by protobuf into trees of optional sub-messages; what verification
@@ -832,4 +834,219 @@ func c16AllocRules(c *Ctx, pfx string) {
 			c.check(w == nil, r, fnName(f)+":"+name, c.pos(f.Pos()), "every successful open crosses the "+name+" edge", "a multi-file appendable can be opened without "+name+" (ReadAt/SetOffset divide by the chunk size): "+c.witnessStr(w))
 		}
 	}
+}
+
+// c16ReadLoopsEnd: termination on every input. The SQL lexer reads its input one byte at a time in `for {}` loops whose
+// only way out on a truncated input (unterminated comment, string, ...) is the reader's error: the ahead-reader keeps
+// answering (0, io.EOF) for ever, so a loop that goes on after it has SEEN the error never ends. Rule: from every edge on
+// which the error of a read is known to be non-nil (err != nil, err == io.EOF), the same read is not reached again, except
+// through another read whose error is examined (that one then decides).
+func c16ReadLoopsEnd(c *Ctx, r string) {
+	isRead := callTo("embedded/sql.(*aheadByteReader).ReadByte", "embedded/sql.(*aheadByteReader).NextByte")
+	errOf := func(in ssa.Instruction) ssa.Value {
+		call, ok := in.(*ssa.Call)
+		if !ok {
+			return nil
+		}
+		for _, rf := range *call.Referrers() {
+			if ex, ok := rf.(*ssa.Extract); ok && ex.Index == 1 {
+				for _, u := range *ex.Referrers() {
+					if _, dbg := u.(*ssa.DebugRef); !dbg {
+						return ex
+					}
+				}
+			}
+		}
+		return nil
+	}
+	n := 0
+	for _, f := range c.allFns {
+		if !fnInPkgs(f, []string{"embedded/sql"}) || len(f.Blocks) == 0 {
+			continue
+		}
+		reads := sites(f, isRead)
+		if len(reads) == 0 {
+			continue
+		}
+		checked := map[*ssa.BasicBlock]ssa.Instruction{}
+		for _, in := range reads {
+			if errOf(in) != nil {
+				if _, dup := checked[in.Block()]; !dup {
+					checked[in.Block()] = in
+				}
+			}
+		}
+		k := 0
+		for _, in := range reads {
+			ev := errOf(in)
+			if ev == nil || !reaches2(in.Block(), in.Block()) {
+				continue // error discarded (the byte is a look-ahead already examined) or not in a loop
+			}
+			k++
+			n++
+			// edges on which ev is known non-nil
+			var bad string
+			for _, b := range f.Blocks {
+				if len(b.Instrs) == 0 {
+					continue
+				}
+				ifi, ok := b.Instrs[len(b.Instrs)-1].(*ssa.If)
+				if !ok {
+					continue
+				}
+				bo, ok := ifi.Cond.(*ssa.BinOp)
+				if !ok || (bo.X != ev && bo.Y != ev) {
+					continue
+				}
+				succ := 0
+				if bo.Op == token.NEQ {
+					other := bo.Y
+					if bo.Y == ev {
+						other = bo.X
+					}
+					if cst, isC := other.(*ssa.Const); !(isC && cst.IsNil()) {
+						continue // err != io.EOF: true edge says nothing
+					}
+				} else if bo.Op == token.EQL {
+					other := bo.Y
+					if bo.Y == ev {
+						other = bo.X
+					}
+					if cst, isC := other.(*ssa.Const); isC && cst.IsNil() {
+						succ = 1
+					}
+				} else {
+					continue
+				}
+				// search from the edge
+				seen := map[*ssa.BasicBlock]bool{}
+				work := []*ssa.BasicBlock{b.Succs[succ]}
+				for len(work) > 0 && bad == "" {
+					x := work[0]
+					work = work[1:]
+					if seen[x] {
+						continue
+					}
+					seen[x] = true
+					if x == in.Block() {
+						bad = c.pos(bo.Pos())
+						if bad == "" {
+							bad = "block " + fmt.Sprint(b.Index)
+						}
+						break
+					}
+					if _, stop := checked[x]; stop {
+						continue
+					}
+					work = append(work, x.Succs...)
+				}
+			}
+			construct := fmt.Sprintf("%s:read#%d:not-read-again-after-its-error", fnName(f), k)
+			c.check(bad == "", r, construct, c.pos(in.Pos()), "once the read has failed (end of input included) the loop is left", "after the read has failed (condition at "+bad+") the loop goes on and reads again: the reader answers io.EOF for ever, the lexer never returns on an input that ends here")
+		}
+	}
+	if n < 5 {
+		c.undecided(r, "floor", fmt.Sprintf("%d error-checked reads inside loops found in the SQL lexer, 5+ expected", n))
+	}
+}
+
+// reaches2: b2 is reachable from a successor of b1 (so reaches2(b,b) means b lies on a cycle).
+func reaches2(b1, b2 *ssa.BasicBlock) bool {
+	seen := map[*ssa.BasicBlock]bool{}
+	work := append([]*ssa.BasicBlock{}, b1.Succs...)
+	for len(work) > 0 {
+		x := work[0]
+		work = work[1:]
+		if x == b2 {
+			return true
+		}
+		if seen[x] {
+			continue
+		}
+		seen[x] = true
+		work = append(work, x.Succs...)
+	}
+	return false
+}
+
+// c16NoNilNil: a constructor-like function of the storage layers that answers (nil, nil) hands its caller a nil it
+// has no reason to test (the error was nil): the next method call on it is a nil dereference. Decided per function:
+// a return whose first result is nil and whose error is nil on the same incoming path.
+var c16NilNilAllowed = map[string]string{
+	"embedded/tbtree.Open": "t is nil at `return t, nil` only on paths where discardSnapshotsFolder was set, and those `continue` before the return (correlated flag, confirmed by reading)",
+}
+
+func c16NoNilNil(c *Ctx, r string, pkgs []string) {
+	n := 0
+	for _, f := range c.allFns {
+		if !fnInPkgs(f, pkgs) || len(f.Blocks) == 0 || f.Synthetic != "" {
+			continue
+		}
+		res := f.Signature.Results()
+		if res.Len() != 2 || res.At(1).Type().String() != "error" {
+			continue
+		}
+		switch res.At(0).Type().Underlying().(type) {
+		case *types.Interface, *types.Pointer:
+		default:
+			continue
+		}
+		n++
+		var bad []string
+		for _, b := range f.Blocks {
+			if len(b.Instrs) == 0 {
+				continue
+			}
+			rt, ok := b.Instrs[len(b.Instrs)-1].(*ssa.Return)
+			if !ok || len(rt.Results) != 2 {
+				continue
+			}
+			if nilOnSamePath(rt.Results[0], rt.Results[1], b, 0) {
+				bad = append(bad, c.pos(rt.Pos()))
+			}
+		}
+		if _, okA := c16NilNilAllowed[fnName(f)]; okA {
+			continue
+		}
+		c.check(len(bad) == 0, r, fnName(f), c.pos(f.Pos()), "never answers (nil, nil)", "can answer (nil, nil) (return at "+strings.Join(bad, ", ")+"): the caller sees no error and calls a method on nil")
+	}
+	if n == 0 {
+		c.undecided(r, "floor", "no function examined")
+	}
+}
+
+// nilOnSamePath: values a and b (as seen at the end of block at) can both be nil along one incoming path.
+func nilOnSamePath(a, b ssa.Value, at *ssa.BasicBlock, depth int) bool {
+	isNil := func(v ssa.Value) bool {
+		cst, ok := v.(*ssa.Const)
+		return ok && cst.IsNil()
+	}
+	if depth > 6 {
+		return false
+	}
+	pa, aPhi := a.(*ssa.Phi)
+	pb, bPhi := b.(*ssa.Phi)
+	switch {
+	case isNil(a) && isNil(b):
+		return true
+	case aPhi && bPhi && pa.Block() == pb.Block():
+		for i := range pa.Edges {
+			if nilOnSamePath(pa.Edges[i], pb.Edges[i], pa.Block().Preds[i], depth+1) {
+				return true
+			}
+		}
+	case aPhi && isNil(b):
+		for i := range pa.Edges {
+			if nilOnSamePath(pa.Edges[i], b, pa.Block().Preds[i], depth+1) {
+				return true
+			}
+		}
+	case bPhi && isNil(a):
+		for i := range pb.Edges {
+			if nilOnSamePath(a, pb.Edges[i], pb.Block().Preds[i], depth+1) {
+				return true
+			}
+		}
+	}
+	return false
 }
